@@ -20,20 +20,20 @@ type smtSig struct {
 }
 
 type Verifier struct {
-	repo       string
-	specDir    string
-	prog       *ssa.Program
-	pkgs       []*packages.Package
-	pkgByName  map[string]*packages.Package
-	C          *Contracts
-	modPath    string
-	mu         sync.Mutex
-	typeIDs    map[string]int
-	smtFuncs   map[string]smtSig
-	smtPrelude string
-	fns        map[string]*ssa.Function
-	allPkgs    map[string]*types.Package
-	guardLockFn map[string]string // heap base name of a guarded field -> sub-object function of its lock field
+	repo        string
+	specDir     string
+	prog        *ssa.Program
+	pkgs        []*packages.Package
+	pkgByName   map[string]*packages.Package
+	C           *Contracts
+	modPath     string
+	mu          sync.Mutex
+	typeIDs     map[string]int
+	smtFuncs    map[string]smtSig
+	smtPrelude  string
+	fns         map[string]*ssa.Function
+	allPkgs     map[string]*types.Package
+	guardLockFn map[string]string       // heap base name of a guarded field -> sub-object function of its lock field
 	lockInv     map[string]*lockInvInfo // sub-object function of a lock field -> its monitor invariant
 }
 
